@@ -125,6 +125,14 @@ def field (kvs : List String) (k : String) : Option Nat :=
 
 def handle (model : String) : List String → String
   | "seq" :: steps => handleSeq model steps
+  | "race" :: kvs =>
+    -- the concurrent scenarios under Go's race detector (harness/c04.go raceRun)
+    if kvs.any (·.startsWith "skipped=") then s!"OK tags=race,skipped"
+    else match field kvs "reports", field kvs "crashed" with
+      | some 0, some 0 => "OK tags=race,clean"
+      | some 0, some _ => "SPEC key=process-crashed (under the race detector)"
+      | some n, _ => s!"SPEC key=data-race reports={n} {" ".intercalate (kvs.filter (·.startsWith "at="))}"
+      | _, _ => "BAD race fields"
   | "crash" :: _ => "SPEC key=process-crashed (panic or fatal error in the client under concurrent failures)"
   | "conc" :: kvs =>
     match field kvs "hung", field kvs "hungcalls", field kvs "postfail", field kvs "unavailable",
